@@ -385,6 +385,15 @@ def d6_registration_at_flush(ctx):
                        "seq %s ; time %s" % (show(seq, tb.names)[:120], show(tm, tb.names)[:120]), key="D6:register-args", loc=t.get("loc"))
 
 
+def d6b_sequence_numbers_stay_paired_with_their_datagrams(ctx):
+    """A link's log holds the numbers it *transmitted* only if the number registered at flush time is the one that was queued with
+    that datagram: the three parallel vectors of the batch queue are pushed, fully drained (zipped in order) and cleared together.
+    This is C01.D4, decided once and reported under both properties (a reset that clears the datagrams but not their numbers
+    pairs the next batch with stale numbers)."""
+    from . import C01
+    C01.d4_fifo_and_pairing(ctx)
+
+
 def d7_a_reset_retires_everything(ctx):
     """"...or retired by a reset of that link": the two resets empty the log and zero the counter on every path (a reset that
     returns early for some link state leaves stale packets in flight), and both teardown entry points always reach the core reset."""
@@ -424,7 +433,7 @@ def d7_a_reset_retires_everything(ctx):
 
 
 RULES = [d1_representation_invariant, d2_retire_only_if_held, d3_cumulative_ack_shape, d4_no_entry_below_highwater,
-         d5_srtla_ack_attribution, d6_registration_at_flush, d7_a_reset_retires_everything]
+         d5_srtla_ack_attribution, d6_registration_at_flush, d6b_sequence_numbers_stay_paired_with_their_datagrams, d7_a_reset_retires_everything]
 
 
 def run(ctx):
